@@ -429,7 +429,12 @@ func c01(c *core.Ctx, r *core.Report) {
 		do, _ := runDo(c)
 		loop, _ := runLoop(c)
 		var runCall, totals ssa.CallInstruction
-		for _, call := range an.AllCalls(do) {
+		body := do
+		// the run loop may be called from a helper of Do (the tail of Do split off): order is judged where the call is
+		for _, e := range an.FlatCalls(do, flatDepth, func(_ ssa.CallInstruction, t *ssa.Function) bool { return t == loop }) {
+			body = e.Instr.Parent()
+		}
+		for _, call := range an.AllCalls(body) {
 			t := an.Callee(call)
 			if t == loop {
 				runCall = call
@@ -451,8 +456,23 @@ func c01(c *core.Ctx, r *core.Report) {
 		recv := an.D().Of(totals.Common().Args[0])
 		n := 0
 		for _, ret := range an.Returns(do) {
-			if !an.Dominates(totals, ret) || len(ret.Results) == 0 {
+			if len(ret.Results) == 0 {
 				continue
+			}
+			if body == do && !an.Dominates(totals, ret) {
+				continue
+			}
+			if body != do {
+				// returns of Do that follow the helper which ran the loop and took the totals
+				after := false
+				for _, e := range an.FlatCalls(do, flatDepth, func(_ ssa.CallInstruction, t *ssa.Function) bool { return t == loop }) {
+					if an.ReachableFrom(e.Root(), ret) {
+						after = true
+					}
+				}
+				if !after {
+					continue
+				}
 			}
 			n++
 			got := an.D().Of(ret.Results[0])
@@ -666,40 +686,33 @@ func routingRules(c *core.Ctx, r *core.Report) {
 
 	// metrics.Result
 	res := c.MustFn("internal/metrics", "Result")
-	okRes := false
-	for _, b := range res.Blocks {
-		if len(b.Instrs) == 0 {
-			continue
-		}
-		iff, ok := b.Instrs[len(b.Instrs)-1].(*ssa.If)
-		if !ok {
-			continue
-		}
-		tIdx, fIdx := 0, 1
-		cond := iff.Cond
-		if u, ok := cond.(*ssa.UnOp); ok && u.Op == token.NOT {
-			cond = u.X
-			tIdx, fIdx = 1, 0
-		}
-		if _, isParam := cond.(*ssa.Parameter); !isParam {
-			continue
-		}
-		retConst := func(bb *ssa.BasicBlock) string {
-			for _, in := range bb.Instrs {
-				if ret, ok := in.(*ssa.Return); ok && len(ret.Results) == 1 {
-					if k, ok := ret.Results[0].(*ssa.Const); ok && k.Value != nil {
-						return constant.StringVal(k.Value)
-					}
+	// what Result returns when its bool parameter is true / false, read along every path (the result may be merged
+	// before a common return)
+	if paths, err := an.DecisionPaths(res, 64); err != nil || len(res.Params) == 0 {
+		r.Undecided("metrics.Result", c.Pos(res.Pos()), "shape of metrics.Result not recognised")
+	} else {
+		byVal := map[bool]map[string]bool{true: {}, false: {}}
+		for _, p := range paths {
+			if p.Ret == nil || len(p.Ret.Results) != 1 {
+				continue
+			}
+			got := "?"
+			if k, ok := an.Strip(p.OnPath(p.Ret.Results[0])).(*ssa.Const); ok && k.Value != nil && k.Value.Kind() == constant.String {
+				got = constant.StringVal(k.Value)
+			}
+			decided := false
+			for _, l := range p.Lits {
+				if an.Strip(l.Cond) == ssa.Value(res.Params[0]) {
+					byVal[l.Val][got] = true
+					decided = true
 				}
 			}
-			return ""
+			if !decided {
+				byVal[true][got], byVal[false][got] = true, true
+			}
 		}
-		t, f := retConst(b.Succs[tIdx]), retConst(b.Succs[fIdx])
-		okRes = t == resultConst(c, "FailedResult") && f == resultConst(c, "SuccessResult")
-		r.Check(okRes, "metrics.Result", c.Pos(res.Pos()), "Result(true) is FailedResult and Result(false) is SuccessResult", "metrics.Result maps failed=true to "+t+" and failed=false to "+f)
-	}
-	if !okRes && len(res.Blocks) == 1 {
-		r.Undecided("metrics.Result", c.Pos(res.Pos()), "shape of metrics.Result not recognised")
+		t, f := strings.Join(keys(byVal[true]), "|"), strings.Join(keys(byVal[false]), "|")
+		r.Check(t == resultConst(c, "FailedResult") && f == resultConst(c, "SuccessResult"), "metrics.Result", c.Pos(res.Pos()), "Result(true) is FailedResult and Result(false) is SuccessResult", "metrics.Result maps failed=true to "+t+" and failed=false to "+f)
 	}
 
 	// Snapshot / Total literals
